@@ -7,6 +7,8 @@
   only members that may be missing are the documented droppable ones.
 -/
 import LDEval.Spec.Schema
+import LDEval.Proofs.AuditCodecEntry
+import LDEval.Obligations.Expected
 
 namespace LD.C16
 open LD.Codec LD.Schema
@@ -427,6 +429,237 @@ example : Schema.segmentOK (Codec.encodeSegment
     { key := "s", rules := [{ clauses := [], weight := some (-7) }],
       includedContexts := [{ values := [] }] }) = true := by
   decide +kernel
+
+/-! ## Strengthened statements (theorem audit) -/
+
+open LD.Entry
+
+/-! ### #54: the four encode paths and the four decode paths
+
+The paths are the definitions of `Model/CodecEntry.lean`, each transcribed from the Go function of
+the same name (serialization object, encoding/json hooks, streaming functions, easyjson hooks) as a
+wrapper around the one encoder / the one decoder plus preprocessing.  What ties those wrappers to
+the code is the regenerated fact `Generated.entryPoints` (`Obligations/CodecTables.lean`:
+`entry_points`, `entry_points_funnel`): the set of exported (un)marshalling functions of both build
+variants and, for each, the core functions it reaches.  `modelled_entry_points` below closes the
+chain `Generated.entryPoints = Expected.entryPoints = Entry.modelled`: an entry point added to, or
+removed from, the Go package, or one that stops reaching the common function, breaks the first
+equation; a wrapper missing from the model breaks the second. -/
+
+/-- The entry points modelled in `Model/CodecEntry.lean` are exactly those the fact extractor
+finds in ldmodel (both build variants), with the same core functions behind each. -/
+theorem modelled_entry_points : Entry.modelled = Expected.entryPoints := by decide
+
+/-- **C16, encode paths (flags).**  For every flag, the serialization object and the encoding/json
+hook return the same output — exactly one JSON value, the tree of the common encoder, and no error
+— and the streaming function and the easyjson hook append exactly that value to whatever writer
+they are given. -/
+theorem encode_paths_agree (f : Flag) (w : Writer) :
+    Serialization.marshalFeatureFlag f = ⟨[Codec.encodeFlag f], false⟩ ∧
+    FeatureFlag.marshalJSON f = ⟨[Codec.encodeFlag f], false⟩ ∧
+    marshalFeatureFlagToJSONWriter f w = w ++ [Codec.encodeFlag f] ∧
+    FeatureFlag.marshalEasyJSON f w = w ++ [Codec.encodeFlag f] :=
+  ⟨rfl, rfl, rfl, rfl⟩
+
+/-- **C16, encode paths (segments).** -/
+theorem encode_paths_agree_segment (s : Segment) (w : Writer) :
+    Serialization.marshalSegment s = ⟨[Codec.encodeSegment s], false⟩ ∧
+    Segment.marshalJSON s = ⟨[Codec.encodeSegment s], false⟩ ∧
+    marshalSegmentToJSONWriter s w = w ++ [Codec.encodeSegment s] ∧
+    Segment.marshalEasyJSON s w = w ++ [Codec.encodeSegment s] :=
+  ⟨rfl, rfl, rfl, rfl⟩
+
+/-- Hence what any of the four paths writes for a flag satisfies the wire schema: every value in
+the output of the two byte-returning paths, and the value the two writer paths append. -/
+theorem encode_paths_schema (f : Flag) (w : Writer) :
+    (∀ v ∈ (Serialization.marshalFeatureFlag f).value, Schema.flagOK v = true) ∧
+    (∀ v ∈ (FeatureFlag.marshalJSON f).value, Schema.flagOK v = true) ∧
+    (marshalFeatureFlagToJSONWriter f w).getLast? = some (Codec.encodeFlag f) ∧
+    (FeatureFlag.marshalEasyJSON f w).getLast? = some (Codec.encodeFlag f) ∧
+    Schema.flagOK (Codec.encodeFlag f) = true := by
+  obtain ⟨h1, h2, h3, h4⟩ := encode_paths_agree f w
+  rw [h1, h2, h3, h4]
+  refine ⟨?_, ?_, by simp, by simp, flag_schema f⟩ <;>
+    · intro v hv
+      have : v = encodeFlag f := by simpa using hv
+      rw [this]; exact flag_schema f
+
+theorem encode_paths_schema_segment (s : Segment) (w : Writer) :
+    (∀ v ∈ (Serialization.marshalSegment s).value, Schema.segmentOK v = true) ∧
+    (∀ v ∈ (Segment.marshalJSON s).value, Schema.segmentOK v = true) ∧
+    (marshalSegmentToJSONWriter s w).getLast? = some (Codec.encodeSegment s) ∧
+    (Segment.marshalEasyJSON s w).getLast? = some (Codec.encodeSegment s) ∧
+    Schema.segmentOK (Codec.encodeSegment s) = true := by
+  obtain ⟨h1, h2, h3, h4⟩ := encode_paths_agree_segment s w
+  rw [h1, h2, h3, h4]
+  refine ⟨?_, ?_, by simp, by simp, segment_schema s⟩ <;>
+    · intro v hv
+      have : v = encodeSegment s := by simpa using hv
+      rw [this]; exact segment_schema s
+
+/-- **C16, decode paths (flags).**  For every document, every half-built value and every old
+content of the two hook destinations: the four paths report an error in exactly the same cases
+(when the common decoder rejects the document), and when they do not, all four deliver the same
+flag — the common decoder's, preprocessed.  (What they deliver WITH an error differs and is the
+subject of `C17.error_zero`, `C17.hook_leaves_destination`, `C17.reader_paths_expose_partial`.) -/
+theorem decode_paths_agree (rx : RegexOracle) (pv : Partial) (destJ destE : Flag) (doc : J) :
+    (Codec.decodeFlag rx doc = .error () ∧
+      (Serialization.unmarshalFeatureFlag rx pv doc).err = true ∧
+      (FeatureFlag.unmarshalJSON rx pv destJ doc).err = true ∧
+      (unmarshalFeatureFlagFromJSONReader rx pv doc).err = true ∧
+      (FeatureFlag.unmarshalEasyJSON rx pv destE doc).err = true) ∨
+    (∃ g, Codec.decodeFlag rx doc = .ok g ∧
+      Serialization.unmarshalFeatureFlag rx pv doc = ⟨g, false⟩ ∧
+      FeatureFlag.unmarshalJSON rx pv destJ doc = ⟨g, false⟩ ∧
+      unmarshalFeatureFlagFromJSONReader rx pv doc = ⟨g, false⟩ ∧
+      FeatureFlag.unmarshalEasyJSON rx pv destE doc = ⟨g, false⟩) := by
+  unfold Serialization.unmarshalFeatureFlag unmarshalFeatureFlagFromJSONReader
+    FeatureFlag.unmarshalEasyJSON
+  rw [hook_eq, fromBytes_eq]
+  unfold decodeFlag
+  cases h : readFlag doc with
+  | error e =>
+    refine .inl ⟨rfl, rfl, rfl, ?_, ?_⟩ <;> rw [fromReader_error rx pv doc h]
+  | ok f =>
+    refine .inr ⟨preprocessFlag rx f, rfl, rfl, rfl, ?_, ?_⟩ <;> exact fromReader_ok rx pv doc f h
+
+/-- **C16, decode paths (segments).** -/
+theorem decode_paths_agree_segment (rx : RegexOracle) (pv : Partial) (destJ destE : Segment) (doc : J) :
+    (Codec.decodeSegment rx doc = .error () ∧
+      (Serialization.unmarshalSegment rx pv doc).err = true ∧
+      (Segment.unmarshalJSON rx pv destJ doc).err = true ∧
+      (unmarshalSegmentFromJSONReader rx pv doc).err = true ∧
+      (Segment.unmarshalEasyJSON rx pv destE doc).err = true) ∨
+    (∃ g, Codec.decodeSegment rx doc = .ok g ∧
+      Serialization.unmarshalSegment rx pv doc = ⟨g, false⟩ ∧
+      Segment.unmarshalJSON rx pv destJ doc = ⟨g, false⟩ ∧
+      unmarshalSegmentFromJSONReader rx pv doc = ⟨g, false⟩ ∧
+      Segment.unmarshalEasyJSON rx pv destE doc = ⟨g, false⟩) := by
+  unfold Serialization.unmarshalSegment unmarshalSegmentFromJSONReader Segment.unmarshalEasyJSON
+  rw [seg_hook_eq, seg_fromBytes_eq]
+  unfold decodeSegment
+  cases h : readSegment doc with
+  | error e =>
+    refine .inl ⟨rfl, rfl, rfl, ?_, ?_⟩ <;> rw [seg_fromReader_error rx pv doc h]
+  | ok f =>
+    refine .inr ⟨preprocessSegment rx f, rfl, rfl, rfl, ?_, ?_⟩ <;>
+      exact seg_fromReader_ok rx pv doc f h
+
+
+/-! ### #56: exactly which members an encoded flag / segment has -/
+
+/-- Every member name the flag encoder can write, in the order it writes them. -/
+def flagAllNames : List String :=
+  ["key", "on", "prerequisites", "targets", "contextTargets", "rules", "fallthrough", "offVariation",
+   "variations", "clientSideAvailability", "clientSide", "salt", "trackEvents", "trackEventsFallthrough",
+   "debugEventsUntilDate", "version", "deleted", "migration", "samplingRatio", "excludeFromSummaries"]
+
+/-- Whether the flag encoder writes the member `n`: always, except for the four droppable members,
+which are written exactly when the field differs from its default. -/
+def flagWrites (f : Flag) (n : String) : Bool :=
+  (n != "clientSideAvailability" || f.fmeta.clientSide.explicit) &&
+  (n != "migration" || f.fmeta.migration.isSome) &&
+  (n != "samplingRatio" || f.fmeta.samplingRatio.isSome) &&
+  (n != "excludeFromSummaries" || f.excludeFromSummaries)
+
+/-- **The member names of an encoded flag, exactly**: the fixed list, in order, minus the droppable
+members whose field is at its default.  So there are no extra members, no duplicate names, every
+legacy member is present, and a droppable member is dropped exactly when its field is the default
+(for every flag, not just the zero flag of `droppable_dropped`). -/
+theorem flag_member_names (f : Flag) :
+    (flagMembers f).map (·.1) = flagAllNames.filter (flagWrites f) := by
+  unfold flagMembers flagWrites encMigration
+  generalize f.fmeta.clientSide.explicit = b1
+  generalize f.fmeta.samplingRatio.isSome = b2
+  generalize f.excludeFromSummaries = b3
+  cases f.fmeta.migration <;> cases b1 <;> cases b2 <;> cases b3 <;> rfl
+
+theorem flag_member_names_nodup (f : Flag) : ((flagMembers f).map (·.1)).Nodup := by
+  rw [flag_member_names]
+  exact List.Pairwise.sublist List.filter_sublist (by decide)
+
+theorem flag_no_extra_members (f : Flag) : ∀ kv ∈ flagMembers f, kv.1 ∈ flagAllNames := by
+  intro kv hkv
+  have : kv.1 ∈ (flagMembers f).map (·.1) := List.mem_map.mpr ⟨kv, hkv, rfl⟩
+  rw [flag_member_names] at this
+  exact (List.mem_filter.mp this).1
+
+/-- Dropped exactly when default, with the exact content when present — in particular the inside
+of `clientSideAvailability` (two booleans) and of `migration` (an optional numeric `checkRatio`),
+which `Schema.flagOK` only types as "object". -/
+theorem droppable_exact (f : Flag) :
+    (flagMembers f).lookup "clientSideAvailability" =
+      (if f.fmeta.clientSide.explicit then
+        some (.obj [("usingMobileKey", .bool f.fmeta.clientSide.usingMobileKey),
+                    ("usingEnvironmentId", .bool f.fmeta.clientSide.usingEnvironmentID)]) else none) ∧
+    (flagMembers f).lookup "migration" =
+      f.fmeta.migration.map (fun cr => .obj (match cr with | some n => [("checkRatio", jInt n)] | none => [])) ∧
+    (flagMembers f).lookup "samplingRatio" = f.fmeta.samplingRatio.map jInt ∧
+    (flagMembers f).lookup "excludeFromSummaries" =
+      (if f.excludeFromSummaries then some (.bool true) else none) := by
+  unfold flagMembers encMigration
+  generalize f.fmeta.clientSide.explicit = b1
+  generalize f.excludeFromSummaries = b3
+  refine ⟨?_, ?_, ?_, ?_⟩
+  · cases f.fmeta.migration <;> cases b1 <;> simp [List.lookup_append, lookup_maybe, List.lookup]
+  · cases f.fmeta.migration with
+    | none => cases b1 <;> simp [List.lookup_append, lookup_maybe, List.lookup]
+    | some cr =>
+      cases cr <;> cases b1 <;> simp [List.lookup_append, lookup_maybe, List.lookup, maybe]
+  · cases f.fmeta.migration <;> cases f.fmeta.samplingRatio <;> cases b1 <;>
+      simp [List.lookup_append, lookup_maybe, List.lookup]
+  · cases f.fmeta.migration <;> cases f.fmeta.samplingRatio <;> cases b1 <;> cases b3 <;>
+      simp [List.lookup_append, lookup_maybe, List.lookup]
+
+def segmentAllNames : List String :=
+  ["key", "included", "excluded", "includedContexts", "excludedContexts", "salt", "rules", "unbounded",
+   "unboundedContextKind", "version", "generation", "deleted"]
+
+def segmentWrites (s : Segment) (n : String) : Bool :=
+  (n != "unbounded" || s.unbounded) && (n != "unboundedContextKind" || s.unboundedContextKind != "")
+
+/-- **The member names of an encoded segment, exactly.** -/
+theorem segment_member_names (s : Segment) :
+    (segmentMembers s).map (·.1) = segmentAllNames.filter (segmentWrites s) := by
+  unfold segmentMembers segmentWrites
+  generalize s.unbounded = b1
+  generalize (s.unboundedContextKind != "") = b2
+  cases b1 <;> cases b2 <;> rfl
+
+theorem segment_member_names_nodup (s : Segment) : ((segmentMembers s).map (·.1)).Nodup := by
+  rw [segment_member_names]
+  exact List.Pairwise.sublist List.filter_sublist (by decide)
+
+theorem segment_droppable_exact (s : Segment) :
+    (segmentMembers s).lookup "unbounded" = (if s.unbounded then some (.bool true) else none) ∧
+    (segmentMembers s).lookup "unboundedContextKind" =
+      (if s.unboundedContextKind != "" then some (.str s.unboundedContextKind) else none) := by
+  unfold segmentMembers
+  generalize s.unbounded = b1
+  generalize (s.unboundedContextKind != "") = b2
+  constructor <;> cases b1 <;> cases b2 <;> simp [List.lookup_append, lookup_maybe, List.lookup]
+
+/-- Non-vacuity: a flag with every droppable member present, and one with none. -/
+def exAllMembers : Flag :=
+  { excludeFromSummaries := true,
+    fmeta := { clientSide := { explicit := true }, migration := some (some 3), samplingRatio := some 2 } }
+example : (flagMembers exAllMembers).map (·.1) = flagAllNames := by decide
+example : ((flagMembers { key := "k" }).map (·.1)).length = 16 := by decide
+
+#print axioms modelled_entry_points
+#print axioms encode_paths_agree
+#print axioms encode_paths_agree_segment
+#print axioms encode_paths_schema
+#print axioms encode_paths_schema_segment
+#print axioms decode_paths_agree
+#print axioms decode_paths_agree_segment
+#print axioms flag_member_names
+#print axioms flag_member_names_nodup
+#print axioms flag_no_extra_members
+#print axioms droppable_exact
+#print axioms segment_member_names
+#print axioms segment_member_names_nodup
+#print axioms segment_droppable_exact
 
 end LD.C16
 
